@@ -44,7 +44,7 @@ impl Property for C06 {
         "C06"
     }
     fn rule(&self) -> String {
-        "Cases: (operand of any zoo type/length/provenance, rotation amount 0<=k<=len, direction). Enumerated: all values and all k for n<=10 (quick)/13 (thorough) on all 19 types; every (n,k) for n<=min(C,100)/320 with run-pattern values whose run of ones ends at k, at k+-1 and at a storage-word boundary. Oracle: list rotation (bit i moves to (i+k) mod n for rotl, (i-k) mod n for rotr), the stated consequences as metamorphic checks (rotl k then rotr k = identity; rotl k = rotr (n-k); popcount preserved) and the observer battery on every result. Non-trivial: n>1, 0<k<n and the value is not invariant under that rotation. Distinct by hash of the case.".into()
+        "Cases: (operand of any zoo type/length/provenance, rotation amount 0<=k<=len, direction). Enumerated: all values and all k for n<=10 (quick)/13 (thorough) on all 20 types; every (n,k) for n<=min(C,100)/320 with run-pattern values whose run of ones ends at k, at k+-1 and at a storage-word boundary. Oracle: list rotation (bit i moves to (i+k) mod n for rotl, (i-k) mod n for rotr), the stated consequences as metamorphic checks (rotl k then rotr k = identity; rotl k = rotr (n-k); popcount preserved) and the observer battery on every result. Non-trivial: n>1, 0<k<n and the value is not invariant under that rotation. Distinct by hash of the case.".into()
     }
     fn random_cases(&self, tier: Tier) -> u64 {
         tier.pick(200000, 6400000)
@@ -70,7 +70,7 @@ impl Property for C06 {
         }).boxed()
     }
     fn exhaustive_subspaces(&self, tier: Tier) -> Vec<String> {
-        vec![format!("all values x all k in 0..=n for n<={} (clipped to capacity) x both directions x 19 types", tier.pick(10, 13))]
+        vec![format!("all values x all k in 0..=n for n<={} (clipped to capacity) x both directions x 20 types", tier.pick(10, 13))]
     }
     fn enumerate(&self, tier: Tier, sh: &mut Shard, f: &mut dyn FnMut(C06Case) -> bool) {
         let ksmall = tier.pick(10, 13);
